@@ -110,3 +110,88 @@ class SymStrMap(_SymDictBase):
         c = SymStrMap(self.member, self.name)
         c.stored = list(self.stored)
         return c
+
+
+class SymMap(_SymDictBase):
+    """dict with an UNBOUNDED symbolic key set over one z3 key sort and integer values: member: K -> Bool, value: K -> Int.
+    Keys are ints (sort Int) or opaque keys (Opaque terms of an uninterpreted sort, e.g. tuples of a symbolic-length row)."""
+
+    def __init__(self, member, value, name="map"):
+        self.member, self.value, self.name = member, value, name
+
+    @staticmethod
+    def fresh(name, key_sort):
+        from .values import fresh_name
+        return SymMap(z3.Const(fresh_name(name + "_in"), z3.ArraySort(key_sort, z3.BoolSort())),
+                      z3.Const(fresh_name(name + "_val"), z3.ArraySort(key_sort, z3.IntSort())), name)
+
+    def key_sort(self):
+        return self.member.sort().domain()
+
+    def _key(self, k):
+        from .values import Opaque
+        t = k.term if isinstance(k, Opaque) else (z(k) if not isinstance(k, (list, tuple, dict)) else None)
+        if t is None or t.sort() != self.key_sort():
+            raise Unsupported("key %r for a symbolic map over %s" % (k, self.key_sort()))
+        return t
+
+    def lookup(self, k, default):
+        kk = self._key(k)
+        return z3.If(z3.Select(self.member, kk), z3.Select(self.value, kk), z(default))
+
+    def has(self, E, k):
+        return z3.Select(self.member, self._key(k))
+
+    def getitem(self, E, k, node):
+        kk = self._key(k)
+        E.safety("key-present", z3.Select(self.member, kk), node, "KeyError")
+        return z3.Select(self.value, kk)
+
+    def setitem(self, E, k, v, node):
+        kk = self._key(k)
+        from .values import is_int_like
+        if not is_int_like(v):
+            raise Unsupported("non-integer value %r in a symbolic map" % (v,))
+        self.member = z3.Store(self.member, kk, z3.BoolVal(True))
+        self.value = z3.Store(self.value, kk, z(v))
+
+    def method(self, E, name, args, kwargs, node):
+        if name == "get":
+            default = args[1] if len(args) > 1 else kwargs.get("default")
+            if default is None:
+                raise Unsupported("symbolic map .get without an integer default")
+            return self.lookup(args[0], default)
+        raise Unsupported("method %s of a symbolic map" % name)
+
+    def iterspec(self, E):
+        raise Unsupported("iteration over a symbolic map")
+
+    def size(self):
+        raise Unsupported("len of a symbolic map")
+
+    def snapshot(self):
+        return SymMap(self.member, self.value, self.name)
+
+
+class SymCountSet(_SymDictBase):
+    """set(array) of a symbolic-length array: only its size is modelled (between 1 and the length; 0 for an empty array)"""
+
+    def __init__(self, count, src=None):
+        self.count = count
+        self.src = src
+
+    def size(self):
+        return self.count
+
+    def has(self, E, k):
+        raise Unsupported("membership in a set of a symbolic-length array")
+
+    def method(self, E, name, args, kwargs, node):
+        raise Unsupported("method %s of a set of a symbolic-length array" % name)
+
+    def iterspec(self, E):
+        # iteration: what set() of the source gave before only its size was asked for (label sets declared by a contract, ...)
+        from .engine import PySet
+        return E.registry.iterspec(E, PySet(E.iterate_concrete(self.src)), None)
+
+    getitem = setitem = has
